@@ -1,16 +1,19 @@
-(** * C03 — No accepted job is lost or stranded on the wait list  (partial: safety half proved; see below)
+(** * C03 — No accepted job is lost or stranded on the wait list  (PARTIAL: no fairness / termination argument)
 
     Proved for every reachable state of the system model: the wait list of a pipeline is *exactly* the list of its
     waiting (not started, not canceled) jobs, each once, in acceptance order. So no event — cancel of another waiting
     job, a job that fails to start, a replacement, a reload — can drop a waiting job from the queue or leave a
     non-waiting one in it (the latter is what stranded jobs before the repair of D2), and every dequeue attempt sees
-    every waiting job. The dequeue loop is proved to consume a prefix of that list.
-    NOT proved here (stated as the monitor of the correspondence run instead): the liveness half — that a dequeue
-    attempt follows every event that frees a slot or makes the head eligible, and hence that under fair scheduling
-    every waiting job eventually starts (C03_work_conserving / C03_drains of DESIGN.md). *)
+    every waiting job. Work conservation (second sentence of the property): for every history without a reload there is
+    no state in which a pipeline has a free concurrency slot while the job at the head of its wait list has no pending
+    start timer (C03_work_conserving) — the start happens in the very step that frees the slot or fires the timer, so the
+    "bounded time" is zero steps of the runner.
+    NOT proved: "eventually starts or is reported canceled, provided tasks terminate" needs fairness of the Go scheduler
+    and termination of tasks, which the model does not express; it is judged by the monitor at the end of every drained
+    history (for pipelines that remained defined). *)
 From stdpp Require Import list sorting.
 From Coq Require Import ZArith.
-From PV Require Import Runner proofs.SystemProps.
+From PV Require Import System Runner proofs.SystemProps proofs.WorkProps.
 
 Theorem C03_waiting_iff_queued_partial : ∀ s p,
   reach s → st_shut s = false → wl_get (st_wait s) p = sys_waiting_ids s p.
@@ -28,6 +31,13 @@ Theorem C03_canceled_waiting_stays_out : ∀ s evs id j,
         ∧ (j_canceled j = true → j_start j = None → j_start j' = None ∧ j_sched j' = None).
 Proof. exact sys_snapshot_immutable. Qed.
 
+(** unchanged definition: never a free slot together with a head job whose start delay has passed *)
+Theorem C03_work_conserving : ∀ ds evs p h rest j,
+  Forall no_reload evs → let s := exec (init ds) evs in
+  st_shut s = false → wl_get (st_wait s) p = h :: rest → get_job s h = Some j → j_timer j = false →
+  (pd_conc (def_or_zero ds p) ≤ running_count s p)%nat.
+Proof. exact sys_work_conserving. Qed.
+
 Definition ex_defs : defs := [(0%nat, PDef 1 None false 0 false 0 0 0 [(0%nat, TaskDef [] false false 0 0)])].
 Example C03_ex :
   let s := exec (init ex_defs) [EvSchedule 0 VNone 0; EvSchedule 0 VNone 0; EvSchedule 0 VNone 0; EvCancel 1] in
@@ -37,3 +47,4 @@ Proof. vm_compute. done. Qed.
 Print Assumptions C03_waiting_iff_queued_partial.
 Print Assumptions C03_queue_in_acceptance_order.
 Print Assumptions C03_canceled_waiting_stays_out.
+Print Assumptions C03_work_conserving.
